@@ -555,7 +555,11 @@ func (w *w1World) checkClientLog(cl *w1SimClient) {
 					}
 					for _, op := range w.nodeOps {
 						mine := (op.Kind == "nunsub" && op.User == cl.spec.User) || (op.Kind == "cunsub" && op.C == cl.idx)
-						if mine && op.Ch == f.Ch && op.Seq > active[f.Ch].originSeq && op.Seq < f.Seq && (op.RetSeq == 0 || op.RetSeq > cmdSeq) {
+						// (a node-level unsubscribe walks over the user's connections: it may have been
+					// invoked before this connection's first subscription even started and reach
+					// the connection after it - what matters is that it was still in progress when
+					// the second subscribe command ran; seed 2 run 4521)
+					if mine && op.Ch == f.Ch && op.Seq < f.Seq && (op.RetSeq == 0 || op.RetSeq > cmdSeq) {
 							// the unsubscribe was in progress when the subscribe command ran
 							sig = "subscribe reply overtakes the unsubscribe push of a server-side unsubscribe in progress"
 						}
@@ -637,7 +641,36 @@ func (w *w1World) checkClientLog(cl *w1SimClient) {
 						timing = "at a later time than the end"
 					}
 					sig = f.Kind + " after the subscription ended by " + prev.endKind + " (" + timing + ")"
-					if prev.overlap {
+					// A publication between the end of one subscription and the start of the next:
+					// the unsubscribe reply is queued after the server removed the routing entry,
+					// so a publication queued behind it found a routing entry again. When the
+					// publish call overlapped the NEXT subscribe command of this connection
+					// (invoked .. its reply written) that entry is the next subscription's, which
+					// exists before its reply is queued: the recorded offset-less publication
+					// finding "before the subscription started (started later by subscribe)"
+					// (seed 3 run 5880). Without such an overlap the push stays a late delivery.
+					early := ""
+					if f.Kind == "push:pub" && prev.endKind == "unsubscribe" {
+						for j := i + 1; j < len(cl.frames); j++ {
+							g := &cl.frames[j]
+							if g.Ch == f.Ch && g.Kind == "subscribe" && g.ErrCode == 0 {
+								if c := cmdByID[g.ReplyID]; c != nil && c.Seq < f.Seq {
+									for _, pr := range w.pubs {
+										if pr.Ch == f.Ch && pr.Data == f.Pub.Data && pr.Seq < g.Seq && (pr.RetSeq == 0 || pr.RetSeq > c.Seq) {
+											early = f.Kind + " before the subscription started (started later by subscribe)"
+										}
+									}
+								}
+								break
+							}
+							if g.Ch == f.Ch && (g.Kind == "push:sub" || g.Kind == "push:unsub" || g.Kind == "unsubscribe") {
+								break
+							}
+						}
+					}
+					if early != "" {
+						sig = early
+					} else if prev.overlap {
 						sig += " after overlapping server-side subscribe and unsubscribe"
 					} else if prev.endKind == "push:unsub" {
 						// did the server end this subscription at all? (Client.Unsubscribe sends
